@@ -476,7 +476,7 @@ func (fi *FuncInfo) paramObj(p *Prog, i int) types.Object {
 // for the sibling comparison of Encrypt and Decrypt.
 func normBody(p *Prog, fi *FuncInfo) string {
 	ren := map[types.Object]string{}
-	if rv := p.recvVar(fi); rv != nil {
+	if rv := p.selfVar(fi); rv != nil {
 		ren[rv] = "R"
 	}
 	for i := 0; ; i++ {
